@@ -124,6 +124,47 @@ func scanAll(data []byte) (out scanOut) {
 }
 
 func c16Eval(c c16Case) (ok bool, sig, detail string) {
+	if c.Kind == "stream" {
+		// two records in one stream, scanned to the end first and decoded only afterwards (a record that was scanned
+		// earlier must not change when a later one is parsed); Off: bit 0 = first record CRLF-style block with a trailing
+		// blank (slow path), bit 1 = second likewise
+		n1, n2 := c.N, c.Byte
+		p1, p2 := c16Residues(n1, 0), c16Residues(n2, 2)
+		mk := func(p []byte, slow bool) []byte {
+			blk := refOrigin(p)
+			if slow && len(blk) > 0 {
+				// a trailing blank on the first line sends the block through the slow reader
+				i := strings.IndexByte(blk, '\n')
+				blk = blk[:i] + " " + blk[i:]
+			}
+			return c16Record(len(p), blk, false)
+		}
+		data := append(mk(p1, c.Off&1 != 0), mk(p2, c.Off&2 != 0)...)
+		var seqs []gts.Sequence
+		var errText string
+		seqioMu.Lock()
+		pn, msg := engine.Safely(func() {
+			sc := seqio.NewAutoScanner(bytes.NewReader(data))
+			for sc.Scan() {
+				seqs = append(seqs, sc.Value())
+			}
+			if e := sc.Err(); e != nil {
+				errText = e.Error()
+			}
+		})
+		seqioMu.Unlock()
+		what := fmt.Sprintf("stream of two records of %d and %d residues (slow-path flags %d)", n1, n2, c.Off)
+		if pn {
+			return false, "panic", what + ": " + msg
+		}
+		if errText != "" || len(seqs) != 2 {
+			return false, "stream-read", what + fmt.Sprintf(": %d records, error %q", len(seqs), errText)
+		}
+		if string(seqs[0].Bytes()) != string(p1) || string(seqs[1].Bytes()) != string(p2) {
+			return false, "stream-decode-after-scan", what + ": a record decoded after the whole stream was scanned does not have the residues it was written with"
+		}
+		return true, "", ""
+	}
 	p := c16Residues(c.N, c.Alph)
 	ref := refOrigin(p)
 	switch c.Kind {
@@ -329,6 +370,15 @@ func init() {
 				if done {
 					r.Extra["ladder_max_length"] = maxLadder
 				}
+				complete = complete && done
+			}
+			// two-record streams decoded after the scan, every pair of lengths 0..75 x fast/slow path combinations
+			if complete {
+				done := r.ParallelFor(76*76, func(idx int) {
+					for f := 0; f < 4; f++ {
+						eval(c16Case{Kind: "stream", N: idx / 76, Byte: idx % 76, Off: f}, 60000)
+					}
+				})
 				complete = complete && done
 			}
 			repl := []byte{' ', '\n', '0', '9', 'a', '!', '~', '\t', 0x7f}
